@@ -579,6 +579,17 @@ package lisp
 //@   loop 2 (rangeindex) invariant [idx] -1 <= rangeindex && rangeindex < old(len(args.Cells)) - 1
 //@   loop 2 (rangeindex) invariant [keep] KEEP(env) && env.Runtime.evalDepth == old(env.Runtime.evalDepth)
 //@   loop 2 (rangeindex) invariant [ctx] preserved(LEnv.evalCtx)
+//@   loop 3 (rangeindex) invariant [idx] -1 <= rangeindex
+//@   loop 3 (rangeindex) invariant [earlier-bindings-did-not-match] forall(j, 0, rangeindex + 1, !matches(old(args.Cells[0]).Cells[j].Cells[0], ret("Eval#1", 0)))
+//@   assert-at Eval#2 [only-after-a-form-failed] ret("Eval#1", 0).Type == LError
+//@   assert-at Eval#2 [evaluates-handler-of-current-binding] arg1 == old(args.Cells[0]).Cells[loopvar(3)+1].Cells[1]
+//@   assert-at Eval#2 [current-binding-matches] matches(old(args.Cells[0]).Cells[loopvar(3)+1].Cells[0], ret("Eval#1", 0))
+//@   assert-at Eval#2 [no-earlier-binding-matches] forall(j, 0, loopvar(3)+1, !matches(old(args.Cells[0]).Cells[j].Cells[0], ret("Eval#1", 0)))
+//@   assert-at PushCondition [pushes-the-failing-forms-error] arg1 == ret("Eval#1", 0)
+//@   assert-at Eval#3 [handler-is-head-of-call-form] arg1 != nil && arg1.Type == LSExpr && len(arg1.Cells) >= 2 && arg1.Cells[0] == ret("Eval#2", 0)
+//@   assert-at return~return_val#1 [unmatched-error-propagates-unchanged] arg0 == ret("Eval#1", 0)
+//@   assert-at return~return_hval [failing-handler-expression-propagates] arg0 == ret("Eval#2", 0)
+//@   assert-at return~return_env.Eval(SExpr(expr)) [handler-value-is-the-result] arg0 == ret("Eval#3", 0)
 //@   ensures  [balanced-rt] BALrt(env)
 //@   ensures  [balanced-frames] BALframes(env)
 //@   ensures  [balanced-conditions] BALconds(env)
@@ -596,7 +607,42 @@ package lisp
 //@   loop 1 (rangeindex) invariant [idx] -1 <= rangeindex && rangeindex < old(len(args.Cells))
 //@   loop 1 (rangeindex) invariant [keep] KEEP(env) && env.Runtime.evalDepth == old(env.Runtime.evalDepth)
 //@   loop 1 (rangeindex) invariant [ctx] preserved(LEnv.evalCtx)
+//@   loop 1 (rangeindex) invariant [value-so-far-is-not-an-error] val == nil || val.Type != LError
+//@   uses singletons
+//@   assert-at return~return_Nil()#2 [swallows-only-ordinary-errors] ret("Eval", 0).Type == LError && !IsInternalPanic(ret("Eval", 0))
+//@   assert-at return~return_val#1 [host-panic-returned-unchanged] arg0 == ret("Eval", 0) && IsInternalPanic(arg0)
+//@   assert-at return~return_Nil()#2 [ordinary-error-becomes-nil] arg0 == singletonNil
+//@   ensures  [never-returns-an-ordinary-error] result != nil && result != singletonNil && result.Type == LError ==> IsInternalPanic(result)
 //@   ensures  [balanced] BAL(env)
 //@   ensures  [evalctx-restored] preserved(LEnv.evalCtx)
 //@   ensures-on-panic [balanced-on-panic] BAL(env)
 //@   property C05 C06
+
+// ---------------------------------------------------------------- C06: condition handling semantics
+
+//@ func IsInternalPanic
+//@   pure
+//@   ensures  [definition] result == (v != nil && v.Type == LError && v.Str == CondInternalPanic && typeis(v.Native, *CallStack) && v.Native.(*CallStack) != nil && len(v.Native.(*CallStack).GoStack) > 0)
+//@   property C06
+
+//@ pred matches(sym, val) = sym.Str == val.Str || (sym.Str == "condition" && !IsInternalPanic(val))
+
+//@ func builtinRethrow
+//@   requires rtOK(env)
+//@   ensures  [rethrows-the-handled-error-itself] old(len(env.Runtime.conditionStack)) > 0 && old(env.Runtime.conditionStack[len(env.Runtime.conditionStack)-1]) != nil ==> result == old(env.Runtime.conditionStack[len(env.Runtime.conditionStack)-1])
+//@   ensures  [error-outside-handler] old(len(env.Runtime.conditionStack)) == 0 ==> result != nil && result.Type == LError && fresh(result)
+//@   property C06
+
+//@ func builtinError
+//@   requires rtOK(env) && argsOK(args, 1)
+//@   loop 1 (rangeindex) invariant [idx] -1 <= rangeindex && rangeindex < len(args.Cells) - 1
+//@   assert-at ErrorCondition [condition-is-first-argument] arg1 == old(args.Cells[0].Str)
+//@   assert-at ErrorCondition [data-count] len(arg2) == old(len(args.Cells)) - 1
+//@   property C06
+
+// ---------------------------------------------------------------- C10: determinism
+
+//@ maprange-exempt (*lisp.LEnv).Bindings$1 host-facing iterator documented as unordered; not reachable from evaluation (frame obligation callers((*LEnv).Bindings) below)
+//@ frame callers((*LEnv).Bindings) subset { lisp/x/debugger.InspectLocals, lisp/x/debugger.InspectScope, lisp/x/debugger.InspectFunctionLocals } property C10
+//@ frame writers(Runtime.numsym) subset { (*Runtime).gensym } property C10 C07
+//@ frame writers(Runtime.numenv) subset { (*Runtime).getEnvID } property C10
